@@ -383,6 +383,30 @@ class CEval(object):
         v = self.ev(n.args[0])
         return SV(TBool, Select(self.ex.ghost_set(self.st, '$held'), v.t))
 
+    def i_opt_none_int(self, n):
+        pt = TOpt(TInt)
+        return SV(pt, ptypes.opt_none(pt))
+
+    def i_k1(self, n):
+        return self.ex.coerce(self.ex.coerce(self.ev(n.args[0]), TCell), ptypes.TJKey)
+
+    def i_kn(self, n):
+        v = self.seq_of(self.ev(n.args[0]))
+        return self.ex.coerce(v, ptypes.TJKey)
+
+    def i_const_map(self, n):
+        kt = ptypes.parse_type(n.args[0])
+        v = self.ev(n.args[1])
+        if v.pt.kind == 'emptylist':
+            raise OutOfSubset('const_map needs a typed value: use empty(T)')
+        pt = PT('map', kt, v.pt)
+        return SV(pt, smt.ConstArr(sort_of(pt), v.t))
+
+    def i_some(self, n):
+        v = self.ev(n.args[0])
+        pt = TOpt(v.pt)
+        return SV(pt, ptypes.opt_some(pt, v.t))
+
     def i_map_set(self, n):
         m, k, v = self.ev(n.args[0]), self.ev(n.args[1]), self.ev(n.args[2])
         k = self.ex.coerce(k, m.pt.args[0])
